@@ -401,6 +401,15 @@ Definition pred_c06 (g : ghost) (w : world) (a : action) (O : oracle) (w' : worl
               end
           | _, _ => []
           end
+      | RApp _ _ _ _ _ true _ =>
+          (* ... and the remember tokens: a cookie logs its bearer in only while its token is in the table - once a
+             password change emptied the table no copy of an earlier cookie is worth anything, however recently it
+             was last used *)
+          match uid_before w r i, uid_in (io_sess i), alookup k_rm (cook_of w (q_browser r)) with
+          | None, Some U, Some c => if cookie_valid_for w c U then [] else [1069]
+          | None, Some _, None => [1069]
+          | _, _, _ => []
+          end
       | _ => []
       end
   | _ => []
@@ -609,7 +618,10 @@ Definition pred_c13 (g : ghost) (w : world) (a : action) (O : oracle) (w' : worl
                    beqb code (aget k_sms_secret sess) && sms_sent_to g (u_sms u') code && beqb (u_totp u) (u_totp u') then [] else [1132]
             | RTotpRemove =>
                 if bempty (u_totp u') && beqb (u_sms u) (u_sms u') &&
-                   (if bempty rc then totp_accepts O (u_totp u) code && beqb (u_recovery u) (u_recovery u')
+                   (* a CURRENT code: with replay protection on, not the one the account last logged in or enrolled with *)
+                   (if bempty rc then totp_accepts O (u_totp u) code && beqb (u_recovery u) (u_recovery u') &&
+                                      negb (c_onetime cfg && negb (bempty (u_totp_last u)) &&
+                                            beqb (code_digits (u_totp_last u)) (code_digits code))
                     else consumed_one (u_recovery u) (u_recovery u') rc) then [] else [1133]
             | RSmsRemove =>
                 if bempty (u_sms u') && beqb (u_totp u) (u_totp u') &&
